@@ -1,18 +1,22 @@
 #!/bin/bash
 # tools/seeded_all.sh [pattern]  — regression over the seeded changes: apply each patch to /repo, run the quick check of
-# its property (or the checks named in meta.json's "regress_checks"), expect exit 1, undo. Prints one line per change.
+# its property (or the checks named in meta.json's "regress_checks"), expect exit 1 from at least one, undo.
+# Prints one line per change. A change whose meta.json names a "base_rev" was written for an older tree and is skipped.
 cd /verif
 export LC_ALL=C
 pat=${1:-}
 if ! git -C /repo diff --quiet; then echo "/repo has uncommitted changes" >&2; exit 2; fi
-ok=0; miss=0
+ok=0; miss=0; skipped=0
 for d in seeded/*${pat}*/; do
   id=$(basename $d); prop=${id%%-*}
+  [ -f $d/patch.diff ] || continue
   p=$d/patch.diff; [ -f $d/patch.rebased.diff ] && p=$d/patch.rebased.diff
-  checks=$prop
+  checks=$(python3 -c "import json,sys; m=json.load(open('$d/meta.json')); print(' '.join(m.get('regress_checks',[])) if not m.get('base_rev') else 'SKIP')" 2>/dev/null)
+  [ -z "$checks" ] && checks=$prop
   [ "$id" = "C04-r2m3" ] && checks=C07
   [ "$id" = "C05-r2m3" ] && checks=C03
   [ "$id" = "C05-m1" ] && checks="C05 C06"
+  if [ "$checks" = SKIP ]; then skipped=$((skipped+1)); echo "$id: skipped (written for an older tree, see meta.json)"; continue; fi
   if ! git -C /repo apply --check $p 2>/dev/null; then echo "$id: patch does not apply (code changed since)"; continue; fi
   git -C /repo apply $p
   res=""
@@ -21,4 +25,4 @@ for d in seeded/*${pat}*/; do
   if echo "$res" | grep -q "=1"; then ok=$((ok+1)); echo "$id: detected ($res)"; else miss=$((miss+1)); echo "$id: NOT DETECTED ($res)"; fi
 done
 rm -f /verif/replays/*.json
-echo "detected=$ok missed=$miss"
+echo "detected=$ok missed=$miss skipped=$skipped"
